@@ -36,9 +36,13 @@ type c58Monitor struct {
 	// conns do (a *net.TCPConn returns an error); LimitListener must free exactly
 	// one slot either way.
 	recloseNil bool
+	// firstCloseErr makes the first Close of a wrapped conn return an error although the
+	// conn is closed by it (a tls.Conn that cannot send close_notify, a wrapper that
+	// reports teardown errors): the slot is free all the same.
+	firstCloseErr bool
 	// closeErr makes the wrapped listener's Close return an error (it still closes).
 	closeErr  bool
-	laggy     bool // the wrapped listener hands out conns after Close (c58Listener.lag)
+	laggy     bool         // the wrapped listener hands out conns after Close (c58Listener.lag)
 	taken     atomic.Int64 // handed out by the fake listener, Close not yet called
 	returned  atomic.Int64 // returned by LimitListener.Accept to the caller, Close not yet called
 	handed    atomic.Int64 // total handed out
@@ -100,8 +104,13 @@ func (c *c58Conn) Close() error {
 	if c.mon.closedN.Add(1) == c.mon.expect && c.mon.allClosed != nil {
 		close(c.mon.allClosed)
 	}
+	if c.mon.firstCloseErr {
+		return errC58Teardown
+	}
 	return nil
 }
+
+var errC58Teardown = errors.New("c58: error while tearing the connection down")
 
 type c58Listener struct {
 	mon    *c58Monitor
@@ -318,6 +327,8 @@ type c58Case struct {
 	Sched   [][]c58Act `json:"sched"`
 	// RecloseNil: the wrapped conns return nil from a repeated Close (net.Pipe style).
 	RecloseNil bool `json:"reclose_nil"`
+	// FirstCloseErr: the wrapped conns return an error from their first Close.
+	FirstCloseErr bool `json:"first_close_err,omitempty"`
 	// CloseErr: the wrapped listener's Close returns an error although it closes.
 	CloseErr bool `json:"close_err"`
 	// Lag: the wrapped listener hands out up to Lag (1-3) more queued conns to
@@ -348,13 +359,14 @@ func c58Gen(t *rapid.T) c58Case {
 		return rapid.SliceOfN(act, n, n).Draw(t, "acts")
 	})
 	return c58Case{
-		N:          rapid.IntRange(0, 4).Draw(t, "n"), // 0: no connection may ever be accepted
-		Prefill:    rapid.IntRange(0, 6).Draw(t, "prefill"),
-		Workers:    rapid.IntRange(2, 5).Draw(t, "workers"),
-		Sched:      rapid.SliceOfN(batch, 1, 40).Draw(t, "sched"),
-		RecloseNil: rapid.Bool().Draw(t, "recloseNil"),
-		CloseErr:   rapid.IntRange(0, 3).Draw(t, "closeErr") == 0,
-		Lag:        rapid.SampledFrom([]int{0, 0, 1, 2, 3}).Draw(t, "lag"),
+		N:             rapid.IntRange(0, 4).Draw(t, "n"), // 0: no connection may ever be accepted
+		Prefill:       rapid.IntRange(0, 6).Draw(t, "prefill"),
+		Workers:       rapid.IntRange(2, 5).Draw(t, "workers"),
+		Sched:         rapid.SliceOfN(batch, 1, 40).Draw(t, "sched"),
+		RecloseNil:    rapid.Bool().Draw(t, "recloseNil"),
+		FirstCloseErr: rapid.IntRange(0, 3).Draw(t, "firstCloseErr") == 0,
+		CloseErr:      rapid.IntRange(0, 3).Draw(t, "closeErr") == 0,
+		Lag:           rapid.SampledFrom([]int{0, 0, 1, 2, 3}).Draw(t, "lag"),
 	}
 }
 
@@ -387,7 +399,7 @@ func c58Prop(c c58Case, r *vp.Rec) error {
 
 func c58Run(c c58Case, r *vp.Rec) error {
 	n := c.Workers
-	mon := &c58Monitor{limit: int64(c.N), recloseNil: c.RecloseNil, closeErr: c.CloseErr, laggy: c.Lag > 0}
+	mon := &c58Monitor{limit: int64(c.N), recloseNil: c.RecloseNil, firstCloseErr: c.FirstCloseErr, closeErr: c.CloseErr, laggy: c.Lag > 0}
 	feeds := c.Prefill
 	for _, b := range c.Sched {
 		feeds += len(b)
